@@ -899,14 +899,18 @@ def mon_c19(ctx, rec):
                     tag = ":stale-mid-depths-after-deepening"
                 out.append(("C19:adjusted-fc-far-table" + tag, f"day t={rec.t}: compartment {i} (centre {ctx.zMid[i]:.3f} m; the model's own mid-depth column says {ctx.zMid_model[i]:.3f}) is {zgw - ctx.zMid[i]:.3f} m above the table but its adjusted field capacity {adj[i]!r} != fc {ctx.th_fc[i]!r}"))
                 break
-    below = ctx.zMid >= zgw
-    if below.any():
+    # "centre below the table": strictly, beyond the rounding of the centre's own arithmetic (a table exactly at a centre obliges
+    # nothing); "saturated": equal to saturation within floating-point rounding of a water content (1e-9 m3/m3)
+    below = ctx.zMid > zgw + 1e-9
+    if (ctx.zMid >= zgw).any():
         st["table_in_soil_days"] += 1
-        bad = below & (rec.th1 != ctx.th_s)
+    if below.any():
+        unsat = np.abs(rec.th1 - ctx.th_s) > 1e-9
+        bad = below & unsat
         if bad.any():
             i = int(np.argmax(bad))
             tag = ""
-            if not np.allclose(ctx.zMid, ctx.zMid_model) and not ((ctx.zMid_model >= zgw) & (rec.th1 != ctx.th_s)).any():
+            if not np.allclose(ctx.zMid, ctx.zMid_model) and not ((ctx.zMid_model > zgw + 1e-9) & unsat).any():
                 # holds with the model's own (stale) mid-depth column, fails with the centres the geometry implies
                 tag = ":stale-mid-depths-after-deepening"
             out.append(("C19:below-table-not-saturated" + tag, f"day t={rec.t}: compartment {i} (centre {ctx.zMid[i]:.3f} m; the model's own mid-depth column says {ctx.zMid_model[i]:.3f}) lies below the table at {zgw} m but ends the day at th={rec.th1[i]!r}, saturation {ctx.th_s[i]!r}"))
